@@ -679,6 +679,71 @@ fn depth_probe(ctx: &PCtx, rec: &RefCell<Recorder>) {
     }
 }
 
+/// Sibling ladder: N embedded messages side by side, each holding tiny packed fields; the memory
+/// a decode keeps must grow with N, not with N times the input length (a per-field reservation
+/// sized by what is left of the *whole* input is invisible for one field and quadratic for many).
+fn sibling_ladder(ctx: &PCtx, rec: &RefCell<Recorder>) {
+    for (di, d) in ctx.corpus.docs.iter().enumerate() {
+        let Some(tree) = d.doc.all_messages().into_iter().find(|r| r.path == vec!["Tree".to_string()]) else { continue };
+        let Some(all) = d.doc.all_messages().into_iter().find(|r| r.path == vec!["All".to_string()]) else { continue };
+        if !ctx.table.get(&d.key).map(|t| t.contains_key(&d.doc.rust_path(&tree))).unwrap_or(false) {
+            continue;
+        }
+        let adecl = d.doc.message(&all);
+        let num = |name: &str| adecl.fields.iter().find(|f| f.name == name).map(|f| f.number);
+        let (Some(f32n), Some(u64n), Some(dn)) = (num("r_fixed32"), num("r_uint64"), num("r_double")) else { continue };
+        let mut inner = vec![];
+        put_key(&mut inner, f32n, 2);
+        inner.extend_from_slice(&[4, 1, 0, 0, 0]);
+        put_key(&mut inner, u64n, 2);
+        inner.extend_from_slice(&[1, 7]);
+        put_key(&mut inner, dn, 2);
+        inner.extend_from_slice(&[8, 0, 0, 0, 0, 0, 0, 0xf0, 0x3f]);
+        let mut kid = vec![];
+        put_key(&mut kid, 5, 2);
+        put_varint(&mut kid, inner.len() as u64);
+        kid.extend_from_slice(&inner);
+        let e = ctx.entry(di, &tree);
+        let mut base = 0isize;
+        for n in [64usize, 256, 1024, 2048] {
+            let mut bytes = vec![];
+            for _ in 0..n {
+                put_key(&mut bytes, 2, 2);
+                put_varint(&mut bytes, kid.len() as u64);
+                bytes.extend_from_slice(&kid);
+            }
+            {
+                let mut rr = rec.borrow_mut();
+                rr.case(fp(&("siblings", &d.key, n)), true, || json!({"doc": d.key, "sibling sub-messages with packed fields": n, "input bytes": bytes.len()}));
+                rr.class("sibling ladder");
+            }
+            let start = vrt::alloc::begin();
+            let r = catch(|| (e.ops.decode_only)(&bytes));
+            let snap = vrt::alloc::end(start);
+            let fail = match r {
+                Err(p) => Some(Fail::new("sibling-ladder-panic", format!("{} sibling messages: decode panicked: {}", n, p))),
+                Ok(false) => Some(Fail::new("sibling-ladder-rejected", format!("{} sibling messages with packed fields are rejected", n))),
+                Ok(true) => {
+                    if n == 64 {
+                        base = snap.peak_over_start.max(4096);
+                        None
+                    } else if snap.peak_over_start > 3 * (n as isize / 64) * base {
+                        Some(Fail::new("alloc-superlinear", format!("decoding {} sibling sub-messages ({} input bytes) held {} bytes at its peak, {} for 64 of them: memory grows faster than the input", n, bytes.len(), snap.peak_over_start, base)))
+                    } else {
+                        None
+                    }
+                }
+            };
+            if let Some(f) = fail {
+                if !ctx.findings.is_open("C10", &f.key) {
+                    ctx.report(rec, "proto-siblings", &json!({"doc": d.key, "siblings": n}), &f);
+                }
+                return;
+            }
+        }
+    }
+}
+
 pub fn c10(ctx: &PCtx) -> i32 {
     let rec = RefCell::new(Recorder::new("C10", ctx.tier, ctx.seed));
     {
@@ -703,6 +768,7 @@ pub fn c10(ctx: &PCtx) -> i32 {
         };
     }
     depth_probe(ctx, &rec);
+    sibling_ladder(ctx, &rec);
     let n = ctx.tier.pick(300, 6000);
     let mut seen = std::collections::BTreeSet::new();
     for (di, r) in ctx.targets() {
